@@ -218,7 +218,10 @@ def run(ctx, rep):
         n_fc += 1
         codes = None
         for e, pol in gs:
-            if isinstance(e, ast.Compare) and utext(e.left).endswith(".error_code") and pol and len(e.ops) == 1:
+            if isinstance(e, ast.Compare) and pol and len(e.ops) == 1 and isinstance(e.ops[0], ast.Eq) and \
+                    isinstance(e.left, ast.Constant) and utext(e.comparators[0]).endswith(".error_code"):
+                codes = {e.left.value}     # written with the constant on the left
+            elif isinstance(e, ast.Compare) and utext(e.left).endswith(".error_code") and pol and len(e.ops) == 1:
                 if isinstance(e.ops[0], ast.Eq) and isinstance(e.comparators[0], ast.Constant):
                     codes = {e.comparators[0].value}
                 elif isinstance(e.ops[0], ast.In) and isinstance(e.comparators[0], (ast.Tuple, ast.List, ast.Set)):
